@@ -102,6 +102,8 @@ def configurations(rng, thorough):
     # (first use).  The harness wraps the "fields" list of that object - data it hands in, nothing of the tree under test -
     # in a list subclass whose iteration is an instrumented point.
     cf.extend(resolution_configurations(rng, thorough))
+    # line-level switch points (sys.settrace in the worker threads) inside selected functions of the tree under test
+    cf.extend(traced_configurations(rng, thorough))
     if thorough:
         cf.append(("3x(2,1,1)", setup, [[sl(AB)], [sl(B)], [sl(C)]], [G.coq_call("CRead", trace_of(r)) for r in (AB, B, C)], None))
         cf.append(("3x2-sample", setup, [[sl(AB)], [sl(BA)], [sl(shared_record(a=5, c=12355))]],
@@ -142,6 +144,83 @@ def resolution_configurations(rng, thorough):
             else:
                 threads.append([{"api": "reader", "data": G.container(w, [rec], {}, "null"), "reader_schema": {"$slot": "RS"}}])
         out.append(dict(name=name, setup=setup, threads=threads, mcalls=None, cap=cap, fresh_setup=True, sig=RES_SIG))
+    return out
+
+
+LOGICAL_SIG = "C18:logical-types:threads-handling-different-logical-types:result-differs-from-sequential"
+WRITER_SIG = "C18:writer-construction:shared-parsed-schema:result-differs-from-sequential"
+
+
+def traced_configurations(rng, thorough):
+    import datetime, decimal, uuid
+    out = []
+    LT = {
+        "time-micros": ({"type": "long", "logicalType": "time-micros"}, datetime.time(1, 2, 3, 456789), 3723456789),
+        "date": ({"type": "int", "logicalType": "date"}, datetime.date(2020, 2, 29), 18321),
+        "decimal": ({"type": "bytes", "logicalType": "decimal", "precision": 6, "scale": 2}, decimal.Decimal("1234.56"), G.Unscaled(123456)),
+        "uuid": ({"type": "string", "logicalType": "uuid"}, uuid.UUID(int=0x1234567890abcdef1234567890abcdef), "12345678-90ab-cdef-1234-567890abcdef"),
+        "timestamp-millis": ({"type": "long", "logicalType": "timestamp-millis"},
+                             datetime.datetime(2021, 3, 4, 5, 6, 7, 891000, tzinfo=datetime.timezone.utc), 1614834367891),
+        "time-millis": ({"type": "int", "logicalType": "time-millis"}, datetime.time(23, 59, 58, 123000), 86398123),
+        "timestamp-micros": ({"type": "long", "logicalType": "timestamp-micros"},
+                             datetime.datetime(1999, 12, 31, 23, 59, 59, 999999, tzinfo=datetime.timezone.utc), 946684799999999),
+    }
+    trace_lt = [["_schema_py.py", "extract_logical_type"]]
+    pairs = [("time-micros", "date"), ("decimal", "uuid"), ("timestamp-millis", "time-millis")] + (
+        [("timestamp-micros", "timestamp-millis"), ("date", "time-millis")] if thorough else [])
+    for a, b in pairs:
+        sa = {"type": "record", "name": "A", "fields": [{"name": "v", "type": LT[a][0]}]}
+        sb = {"type": "record", "name": "B", "fields": [{"name": "v", "type": LT[b][0]}]}
+        both = {"type": "record", "name": "AB", "fields": [{"name": "a", "type": LT[a][0]}, {"name": "b", "type": LT[b][0]}]}
+        setup = [{"api": "parse_schema", "schema": sa, "$out": "SA"}, {"api": "parse_schema", "schema": sb, "$out": "SB"},
+                 {"api": "parse_schema", "schema": both, "$out": "SAB"}]
+        # each thread its own logical type, on its own parsed schema
+        out.append(dict(name="logical-write-%s-vs-%s" % (a, b), setup=setup, mcalls=None, cap=150, fresh_setup=False, sig=LOGICAL_SIG,
+                        trace=trace_lt, isolate=True,
+                        threads=[[{"api": "schemaless_writer", "schema": {"$slot": "SA"}, "record": {"v": LT[a][1]}, "kw": {}}],
+                                 [{"api": "schemaless_writer", "schema": {"$slot": "SB"}, "record": {"v": LT[b][1]}, "kw": {}}]]))
+        out.append(dict(name="logical-read-%s-vs-%s" % (a, b), setup=setup, mcalls=None, cap=150, fresh_setup=False, sig=LOGICAL_SIG,
+                        trace=trace_lt, isolate=True,
+                        threads=[[{"api": "schemaless_reader", "schema": {"$slot": "SA"}, "data": G.encode(sa, {"v": LT[a][2]}, {})}],
+                                 [{"api": "schemaless_reader", "schema": {"$slot": "SB"}, "data": G.encode(sb, {"v": LT[b][2]}, {})}]]))
+        # both types in one SHARED parsed schema, one thread writes, the other reads
+        out.append(dict(name="logical-shared-%s+%s" % (a, b), setup=setup, mcalls=None, cap=150, fresh_setup=False, sig=LOGICAL_SIG,
+                        trace=trace_lt, isolate=True,
+                        threads=[[{"api": "schemaless_writer", "schema": {"$slot": "SAB"}, "record": {"a": LT[a][1], "b": LT[b][1]}, "kw": {}}],
+                                 [{"api": "schemaless_reader", "schema": {"$slot": "SAB"},
+                                   "data": G.encode(both, {"a": LT[a][2], "b": LT[b][2]}, {})}]]))
+    # construction of a container writer on a shared PARSED schema (parsed piecewise: the child type only in the shared dict)
+    child = {"type": "record", "name": "Child", "fields": [{"name": "x", "type": "long"}, {"name": "s", "type": "string"}]}
+    parent = {"type": "record", "name": "Parent", "fields": [{"name": "c", "type": "Child"}, {"name": "n", "type": "long"}]}
+    inline = {"type": "record", "name": "Parent", "fields": [{"name": "c", "type": child}, {"name": "d", "type": "Child"}, {"name": "n", "type": "long"}]}
+    defined = {"Child": child, "Parent": parent}
+    rec = lambda k: {"c": {"x": k, "s": "s%d" % k}, "n": k + 1}
+    trace_w = [["_write_py.py", "__init__"], ["_schema_py.py", "parse_schema"], ["_schema_py.py", "to_parsing_canonical_form"]]
+    piecewise = [{"api": "new_dict", "$out": "N"},
+                 {"api": "parse_schema", "schema": child, "named_schemas": {"$slot": "N"}, "$out": "C"},
+                 {"api": "parse_schema", "schema": parent, "named_schemas": {"$slot": "N"}, "$out": "P"}]
+    t0 = [{"api": "writer", "schema": {"$slot": "P"}, "records": [rec(1), rec(2)], "kw": {}}]
+    others = {
+        "parse_schema": {"api": "parse_schema", "schema": {"$slot": "P"}},
+        "schemaless_writer": {"api": "schemaless_writer", "schema": {"$slot": "P"}, "record": rec(5), "kw": {}},
+        "writer": {"api": "writer", "schema": {"$slot": "P"}, "records": [rec(7)], "kw": {"codec": "deflate"}},
+        "json_writer": {"api": "json_writer", "schema": {"$slot": "P"}, "records": [rec(8)], "kw": {}},
+        "canonical": {"api": "canonical", "schema": {"$slot": "P"}},
+        "validate": {"api": "validate", "schema": {"$slot": "P"}, "datum": rec(9), "kw": {}},
+        "schemaless_reader": {"api": "schemaless_reader", "schema": {"$slot": "P"}, "data": G.encode(parent, rec(3), defined)},
+        "reader-with-reader-schema": {"api": "reader", "data": G.container(inline, [dict(rec(4), d={"x": 0, "s": ""})], defined, "null"),
+                                      "reader_schema": {"$slot": "P"}},
+    }
+    for k, op in others.items():
+        out.append(dict(name="writer-construction-vs-%s" % k, setup=piecewise, threads=[t0, [op]], mcalls=None, cap=120,
+                        fresh_setup=True, sig=WRITER_SIG, trace=trace_w, isolate=True))
+    out.append(dict(name="writer-construction-inline-schema-x2", setup=[{"api": "parse_schema", "schema": inline, "$out": "P"}],
+                    threads=[[{"api": "writer", "schema": {"$slot": "P"}, "records": [dict(rec(1), d={"x": 1, "s": "d"})], "kw": {}}],
+                             [{"api": "writer", "schema": {"$slot": "P"}, "records": [dict(rec(2), d={"x": 2, "s": "e"})], "kw": {}}]],
+                    mcalls=None, cap=120, fresh_setup=True, sig=WRITER_SIG, trace=trace_w, isolate=True))
+    if thorough:
+        for c in out:
+            c["cap"] = c["cap"] * 8
     return out
 
 
@@ -295,7 +374,8 @@ def forced(ctx, scratch, variant, thorough):
             cfg = dict(zip(("name", "setup", "threads", "mcalls", "cap"), cfg), fresh_setup=False, sig=None)
         name, setup, threads, mcalls, cap = cfg["name"], cfg["setup"], cfg["threads"], cfg["mcalls"], cfg["cap"]
         fresh_setup = cfg["fresh_setup"]
-        cnt = run_job(dict(mode="count", setup=setup, threads=threads, fresh_setup=fresh_setup), scratch, "cnt")
+        extra = dict(fresh_setup=fresh_setup, trace=cfg.get("trace", []), isolate=cfg.get("isolate", False))
+        cnt = run_job(dict(mode="count", setup=setup, threads=threads, **extra), scratch, "cnt")
         counts = [len(p) for p in cnt["points"]]
         seq = [r[0] for r in cnt["sequential"]]
         summary[name] = dict(points_per_thread=counts, has_module_context=cnt["has_module_context"])
@@ -337,7 +417,7 @@ def forced(ctx, scratch, variant, thorough):
             summary[name]["exhaustive"] = False
         # an implementation that synchronises on the shared context itself makes most requested orders infeasible
         # (each costs a time-out): probe a few, then sample
-        probe = run_job(dict(mode="forced", setup=setup, threads=threads, fresh_setup=fresh_setup,
+        probe = run_job(dict(mode="forced", setup=setup, threads=threads, **extra,
                              schedules=scheds[:: max(1, len(scheds) // 4)][:4]), scratch, "probe")
         if any(r["infeasible"] for r in probe["runs"]):
             rng.shuffle(scheds)
@@ -351,7 +431,7 @@ def forced(ctx, scratch, variant, thorough):
         shards = [scheds[i::nshard] for i in range(nshard)]
         from concurrent.futures import ThreadPoolExecutor
         with ThreadPoolExecutor(max_workers=nshard) as ex:
-            outs = list(ex.map(lambda a: run_job(dict(mode="forced", setup=setup, threads=threads, schedules=a[1], fresh_setup=fresh_setup), scratch,
+            outs = list(ex.map(lambda a: run_job(dict(mode="forced", setup=setup, threads=threads, schedules=a[1], **extra), scratch,
                                                  "fs%s_%d" % (re.sub(r"\W", "", name), a[0])), enumerate(shards)))
         runs = [r for o in outs for r in o["runs"]]
         # the model under the same schedules: each thread's table-read step first, then the instrumented points
@@ -401,7 +481,7 @@ def forced(ctx, scratch, variant, thorough):
             ctx.violation("corr:forced-schedule",
                           dict(configuration=name, schedule=r["schedule"], trace=r["trace"], thread=i,
                                setup=[c17.describe(c) for c in setup], threads=[[c17.describe(c) for c in ops] for ops in threads],
-                               job_pickled=_b64(dict(mode="forced", setup=setup, threads=threads, schedules=[r["schedule"]], fresh_setup=fresh_setup)),
+                               job_pickled=_b64(dict(mode="forced", setup=setup, threads=threads, schedules=[r["schedule"]], **extra)),
                                note="%d of %d schedules of this configuration give some thread a result different from its sequential one"
                                     % (nrace, len(runs))),
                           impl=dict(thread=i, under_schedule=dict(status=got[i]["st"], decimals=decimals(got[i]), value=got[i]["val"])),
@@ -518,7 +598,8 @@ def replay(ctx, rep):
     scratch = tempfile.mkdtemp(prefix="c18r.", dir=ctx.workdir)
     try:
         if job["mode"] == "forced":
-            cnt = run_job(dict(mode="count", setup=job["setup"], threads=job["threads"]), scratch, "cnt")
+            cnt = run_job(dict(mode="count", setup=job["setup"], threads=job["threads"], fresh_setup=job.get("fresh_setup"),
+                               trace=job.get("trace", []), isolate=job.get("isolate", False)), scratch, "cnt")
             seq = [r[0] for r in cnt["sequential"]]
             out = run_job(job, scratch, "rp")["runs"][0]
             got = [x[0] for x in out["results"]]
